@@ -1,3 +1,5 @@
+import DSV.Proofs.Skeleton
+import DSV.Generated.Skeleton
 import DSV.Proofs.Occ
 /-!
 C08 — a stale lock holder or delayed pointer write cannot lose an update on S3.
@@ -58,3 +60,27 @@ example : ((runSched repairedCas (init fun _ => .snap)
     some (.conflict, [⟨2, 0, 0, 1⟩]) := by decide
 
 end DSV.Occ
+
+/-! ## Tie to the current source: where the ETag of the conditional pointer write comes from -/
+namespace DSV.Src.C08
+open DSV.Skel DSV.Generated.Skel
+
+/-- **source_single_read** — in the CURRENT source the commit-point routine performs no read of its own, and the ETag'd
+read reads the pointer exactly once and never through `refresh` / `_read_version_hint`: the model's `singleRead` holds. -/
+theorem source_single_read : singleReadOf mmWriteHint mmReadCurrentEtag = true := by decide
+
+/-- **source_flip_is_conditional** — the commit-point routine's writes are the conditional PUT (CAS branch) and the plain
+write (atomic-rename backends), in that order, nothing else. -/
+theorem source_flip_is_conditional :
+    project [("storage.write_file_cas", "cas"), ("storage.write_file", "plain"), ("storage.write_json", "plain"),
+             ("storage.delete_file", "delete")] mmWriteHint = ["cas", "plain"] := by decide
+
+/-- **ack_replaced_validated_source** — `ack_replaced_validated` with the `singleRead` switch READ OFF the current source:
+nothing assumed about the lock. -/
+theorem ack_replaced_validated_source (excl : Bool) (kind : Nat → Occ.Kind) (s : Occ.Sys)
+    (hr : Occ.Reach ⟨true, excl, true, singleReadOf mmWriteHint mmReadCurrentEtag⟩ kind s) :
+    Occ.FlipsOk s ∧ Occ.Chain s.flips ∧ s.hint.fid = Occ.headFid s.flips := by
+  rw [source_single_read] at hr
+  exact Occ.ack_replaced_validated _ kind ⟨rfl, rfl, rfl⟩ s hr
+
+end DSV.Src.C08
